@@ -5,7 +5,7 @@ CONSTANTS
   Pct <- cPct100
   A = 1
   W = 2
-  RenewDay = 18
+  RenewDay = 17
   Variant = "asis"
   DayLen = 86400
   MonthLen = 28
